@@ -239,7 +239,7 @@ fn parent(id: &str, tier: Tier) -> i32 {
     for k in load_known().into_iter().filter(|k| k.property == id && k.status == "known") {
         let mut reproduced = "not re-executed".to_string();
         if let Some(r) = &k.replay {
-            let path = format!("{}/{}", VERIF_DIR, r);
+            let path = format!("{}/{}", verif_dir(), r);
             let out = Command::new(&exe).arg("replay").arg(&path).stdout(Stdio::piped()).stderr(Stdio::null()).output();
             reproduced = match out {
                 Ok(o) if o.status.code() == Some(1) => {
